@@ -52,6 +52,10 @@ def main(argv):
     ctx.config = None
     if hasattr(mod, "run_once"):
         mod.run_once(ctx)
+    if tier == "thorough" and not os.environ.get("VERIF_IN_FIXTURE"):
+        import thorough
+
+        thorough.run_fixtures(ctx, prop)
     cmd = "python3 sa/check.py %s --tier %s" % (prop, tier)
     return finish(ctx, mod.LEVEL, t0, mod.EXPLANATION, mod.TRUSTED, cmd, seed=seed)
 
